@@ -42,6 +42,7 @@ var Prop = &engine.Prop{
 		{Name: "anyway-close", Quick: 400, Thorough: 16000, Fn: anywayCloseCase},
 		{Name: "late-waker", Quick: 1200, Thorough: 48000, Fn: lateWakerCase},
 		{Name: "mq-reuse", Quick: 600, Thorough: 24000, Fn: mqReuseCase},
+		{Name: "mq-long-run", Quick: 400, Thorough: 16000, Fn: mqLongRunCase},
 		{Name: "seq-priq", Quick: 12000, Thorough: 500000, Fn: seqCase(famPri)},
 		{Name: "lin-pipe", Quick: 3000, Thorough: 90000, Repeat: 20, Fn: linCase(famQ, famAsync, famMux)},
 		{Name: "lin-mq", Quick: 2000, Thorough: 60000, Repeat: 20, Fn: linCase(famMQ)},
@@ -63,6 +64,7 @@ var Prop = &engine.Prop{
 		"clause:popanyway_residue_order":            50,
 		"clause:pop_closed_empty":                   100,
 		"clause:mq_ctrl_before_req":                 100,
+		"clause:mq_long_control_run_in_order":       100,
 		"clause:tryclose_true_on_empty":             30,
 		"clause:tryclose_false_on_nonempty":         50,
 		"clause:tryclose_false_one_list_empty":      20,
